@@ -192,6 +192,12 @@ func (e *Engine) VerifyFunc(fn *ssa.Function, fc *FuncContract) (res *FuncResult
 					// the lemma cannot be stated here; it must be stated on some return.
 					continue
 				}
+				if strings.Contains(err.Error(), "atcall: no call site") && f.hasRequiredAnchor() {
+					// it speaks about a required call (`call!`) that is gone: that clause fails
+					// in its own right (reported below); this one cannot be stated
+					exitAsserted[a.Text] = true
+					continue
+				}
 				f.bail("assert at exit %q: %v", a.Text, err)
 			}
 			exitAsserted[a.Text] = true
@@ -239,6 +245,11 @@ func (e *Engine) VerifyFunc(fn *ssa.Function, fc *FuncContract) (res *FuncResult
 		for _, a := range fc.Asserts {
 			if a.Anchor == "send" && !f.assertsHit[a.Anchor+"|"+a.Text] {
 				f.bail("bind-error: assert at send %q: %s sends on no channel", a.Text, fn.Name())
+			}
+			if strings.HasPrefix(a.Anchor, "call! ") && !f.assertsHit[a.Anchor+"|"+a.Text] {
+				// a required call that the function no longer makes: the clause fails
+				name := fmt.Sprintf("%s#anchor[%s: %s]", shortFuncName(res.Name), a.Anchor, normText(a.Text))
+				ctx.AddOblig(&Obligation{Name: name, Kind: "anchor", Func: res.Name, Pos: f.posString(fn.Pos()), Clause: "the function calls " + strings.TrimPrefix(a.Anchor, "call! ") + " (" + a.Text + ")", Reach: "true", Goal: "false", ModelTerms: f.params})
 			}
 			if strings.HasPrefix(a.Anchor, "call ") && !f.assertsHit[a.Anchor+"|"+a.Text] {
 				f.bail("bind-error: assert at %s %q: no such call site in %s", a.Anchor, a.Text, fn.Name())
